@@ -4,6 +4,7 @@ import (
 	"fmt"
 	"runtime"
 	"strconv"
+	"strings"
 
 	"verifharness/gen"
 	"verifharness/mon"
@@ -65,7 +66,7 @@ func c05Case(r *mon.Run, t *mon.Tally, wl string, idx int, expr string, hdocs []
 
 func c05(r *mon.Run) {
 	r.Rule = "byte strings as expressions: (1) every string of <= 2 bytes and every 3-byte string over a 40-byte alphabet of delimiters, escapes and UTF-8 lead/continuation bytes; (2) seeded soups of hostile lexemes (identifiers followed by boundary code points and invalid UTF-8, extreme and malformed numbers, unterminated and escaped delimiters); " +
-		"(3) every recursive construct nested 1..~32k deep (up to 64 KiB); (4) grammar-generated trees of all fragments with hostile leaves; (5) the repository's fuzz corpus (642 files go test never runs), the compliance expressions and seeded mutations of both. Every expression that compiles is searched on 8 documents (null, scalars, invalid UTF-8, heterogeneous, nested 200 deep, 10^4-element array with long astral strings) through Search and Compile+Search under recover(); " +
+		"(3) every recursive construct nested 1..~32k deep (up to 64 KiB); (4) grammar-generated trees of all fragments with hostile leaves, and 21 functions on 43 edge strings (truncated numbers, lone signs, huge digit runs, invalid UTF-8, NUL, 70 kB strings); (5) the repository's fuzz corpus (642 files go test never runs), the compliance expressions and seeded mutations of both. Every expression that compiles is searched on 8 documents (null, scalars, invalid UTF-8, heterogeneous, nested 200 deep, 10^4-element array with long astral strings) through Search and Compile+Search under recover(); " +
 		"a stalled case is nominated after 90 s and confirmed in a fresh single-case process (120 s); serial metering of allocation against a size-derived bound. Non-trivial = distinct inputs that compiled (reached the interpreter)."
 	r.Floor = 2000
 	r.Assumptions = []string{"recover() observes every run-time panic; fatal errors and hangs are observed by the parent process (exit status, stall alarm, watchdog)",
@@ -92,6 +93,39 @@ func c05(r *mon.Run) {
 			if i%9973 == 0 {
 				t.Sample(map[string]interface{}{"workload": "hostile-trees", "expression": expr})
 			}
+		}})
+	// every built-in function on edge strings / values (scanner and conversion code inside the handlers)
+	edge := []string{"", " ", "1e", "1E-", "12.5e+", "-", "+", ".", "1.", ".5", "-.", "0x", "0x1p", "1e999", "-1e999", "00", "01", "1_0", "١", "NaN", "Inf", "-0", "1e-999", "9223372036854775808",
+		"\x00", "a\x00b", "\xff", "\xe2\x82", "é", "😀", "\u2028", "'", "\\", "[", "{", "null", "true", "\"q\"", "[1", "{\"a\":", "1 2", strings.Repeat("9", 400), strings.Repeat("a", 70000)}
+	efns := []string{"to_number", "to_string", "to_array", "type", "length", "reverse", "abs", "ceil", "floor", "not_null", "keys", "values", "sort", "max", "min", "sum", "avg", "contains", "starts_with", "ends_with", "join"}
+	ne := len(efns) * len(edge) * 3
+	ws = append(ws, mon.Workload{Name: "function-edge-strings", N: ne, Batch: 50,
+		Describe: func(i int) string { return fmt.Sprint("function-edge-strings case ", i) },
+		Do: func(i int, t *mon.Tally) {
+			form := i % 3
+			k := i / 3
+			fn, e := efns[k/len(edge)], edge[k%len(edge)]
+			doc := map[string]interface{}{"s": e, "a": []interface{}{e, "1e", e}, "o": map[string]interface{}{e: e}}
+			var expr string
+			switch form {
+			case 0:
+				expr = fn + "(s)"
+			case 1:
+				expr = "a[*]." + fn + "(@)"
+			default:
+				expr = fn + "(s, s)"
+			}
+			if fn == "join" && form != 2 {
+				expr = "join(s, a)"
+			}
+			t.Eval()
+			for _, o := range []mon.Observed{apiSearch(expr, doc), apiCompiledSearch(expr, doc)} {
+				if o.Panicked {
+					r.Violate(&mon.Violation{Workload: "function-edge-strings", Index: i, API: "Search", Expr: expr, Doc: map[string]interface{}{"s": brief(e)}, Expected: "a value or an error", Observed: o.String(), Detail: o.Stack, Class: "function-edge-strings: panic in " + fn})
+					return
+				}
+			}
+			t.Nontrivial("edge:" + expr + brief(e))
 		}})
 	// serial allocation metering over the nesting family and a sample of trees
 	nest := genNesting()
